@@ -109,6 +109,32 @@ def cases(draw, thorough):
     return c
 
 
+@st.composite
+def negative_position_cases(draw, thorough):
+    """a run of struct-coded fields placed through a SIGNED position field: inputs sweep the position across 'before the start
+    of the data' (Python slices wrap there; both code paths must do whatever they do identically)"""
+    run = []
+    for j in range(draw(st.integers(1, 3))):
+        if draw(st.integers(0, 3)) == 0:
+            run.append({"k": "data", "name": "r%d" % j, "size": ["const", draw(st.integers(1, 3))], "incl": False})
+        else:
+            run.append({"k": "int", "name": "r%d" % j, "n": draw(st.sampled_from([1, 2, 4, 3])), "signed": draw(st.booleans()),
+                        "endian": draw(st.sampled_from([None, "little"]))})
+    kind = draw(st.sampled_from(["at", "at", "shift"]))
+    ref = draw(st.sampled_from(["innermost-pkt", "begins"])) if kind == "at" else "current-offset"
+    form = draw(st.sampled_from(["field", "call"]))
+    arg = ["field", "c"] if form == "field" else ["call", ["bin", "sub", ["f", "c"], ["c", draw(st.integers(0, 2))]]]
+    run[0]["move"] = {"kind": kind, "arg": arg, "ref": ref}
+    fields = [{"k": "int", "name": "c", "n": 1, "signed": True, "endian": None, "ctl": True}] + run
+    if draw(st.booleans()):
+        fields.append({"k": "int", "name": "t", "n": 1, "signed": False, "endian": None})
+    fam = {"pkts": [{"name": "N0", "opts": {}, "fields": fields}]}
+    body = draw(st.binary(min_size=10, max_size=14))
+    inputs = [("neg-position", ir.int_encode(c, 1, True, True) + body, 0) for c in range(-14, 4)]
+    combos = decl.all_cg_combos() if thorough else list(QUICK_COMBOS)
+    return {"fam": fam, "cg": {}, "trees": [], "inputs": inputs, "values": [], "combos": combos}
+
+
 def strip_described(fam, vals):
     """the same tree without the described (Auto/AutoLength) fields, so that the descriptor computes them; None if there are none"""
     found = [False]
@@ -176,7 +202,9 @@ def run_case(ctx, c):
         # inputs/values that drive the cursor or a count out of any sensible range are skipped (2^32 empty elements, 4 GB of fill)
         keep = []
         for inp in c["inputs"]:
-            if decl.model_parse(fam, inp[1], inp[2])[0] == "unspec":
+            # the reference parser is only a bound here (wrap=True follows a cursor before index 0 the way Python slices do, which
+            # both code paths must do identically); runaway inputs stay out
+            if decl.model_parse(fam, inp[1], inp[2], wrap=True)[0] == "unspec":
                 ctx.count("skipped", "input-unspecified")
             else:
                 keep.append(inp)
@@ -308,6 +336,7 @@ def run_shard(shard, ctx):
         check_custom_descriptors(ctx)
     thorough = ctx.tier == "thorough"
     run_given(ctx, cases(thorough), lambda c: run_case(ctx, c), 50 if not thorough else 300)
+    run_given(ctx, negative_position_cases(thorough), lambda c: run_case(ctx, c), 15 if not thorough else 150, salt=1)
 
 
 def replay(case, ctx):
